@@ -584,7 +584,7 @@ class VcfReader:
     @staticmethod
     def _extract_HP_phase(call: VariantRecordSample) -> Optional[VariantCallPhase]:
         hp = call.get("HP")
-        if hp is None or hp == (".",):
+        if hp is None or all(x is None or x == "." for x in hp):
             return None
         fields = [[int(x) for x in s.split("-")] for s in hp]
         for i in range(len(fields)):
@@ -1261,8 +1261,9 @@ class PhasedVcfWriter(VcfAugmenter):
                     self._set_phasing_tags(call, components[pos], phases[pos], haploid_component)
                     any_phased = True
                 else:
-                    # Unphased
-                    call[self.tag] = None
+                    # Unphased. For the string-valued HP tag, None would be written as an empty
+                    # field, which is not valid VCF and is read back as (None,)
+                    call[self.tag] = None if self.tag == "PS" else "."
             if self.tag == "HP" and not any_phased:
                 # pysam cannot represent a string-valued FORMAT field that is missing in all
                 # samples (it writes NUL bytes that htslib refuses to parse), so drop the key
